@@ -224,6 +224,32 @@ func init() {
 	extModels["(*sync.RWMutex).RLock"] = lockOp("RLock", "0", "1", "acquire shared: requires the lock not held by this goroutine; lockset[l] := R")
 	extModels["(*sync.RWMutex).RUnlock"] = lockOp("RUnlock", "1", "0", "release shared: requires lockset[l] = R")
 
+	// ---- sync.Map (sequential view; keys by the value part of the key interface) ----
+	smHandle := func(id string) *mapHandle {
+		return &mapHandle{fam: "syncmap", ref: id, kt: types.Typ[types.Int], vt: types.Typ[types.Int], sync: true}
+	}
+	extModels["(*sync.Map).Store"] = &model{doc: "ghost view[key] := value (single atomic replacement)", fams: []string{"syncmap"}, emits: true, fn: simple(func(r *FnRun, st *State, instr ssa.Instruction, args []*V) *V {
+		id := identityLeaves(args[0])[0]
+		st.mapPut(smHandle(id), args[1].Val, args[2])
+		st.emit("mapstore", id, args[1].Val, args[2].Val)
+		return unit()
+	})}
+	extModels["(*sync.Map).Delete"] = &model{doc: "ghost view[key] removed", fams: []string{"syncmap"}, emits: true, fn: simple(func(r *FnRun, st *State, instr ssa.Instruction, args []*V) *V {
+		id := identityLeaves(args[0])[0]
+		st.mapDel(smHandle(id), args[1].Val)
+		st.emit("mapdelete", id, args[1].Val)
+		return unit()
+	})}
+	extModels["(*sync.Map).Load"] = &model{doc: "reads the ghost view", fn: simple(func(r *FnRun, st *State, instr ssa.Instruction, args []*V) *V {
+		id := identityLeaves(args[0])[0]
+		h := smHandle(id)
+		has := st.mapHas(h, args[1].Val)
+		anyT := types.NewInterfaceType(nil, nil)
+		val := &V{K: KIface, T: anyT, Tag: selN(st.comp("syncmap#vtag", 2, "Int"), []string{id, args[1].Val}), Val: selN(st.comp("syncmap#val", 2, "Int"), []string{id, args[1].Val})}
+		ev := &EvalCtx{run: r, st: st}
+		return &V{K: KTuple, T: resType(instr), F: []*V{st.nameV("smload", ev.iteV(has, val, st.zero(anyT))), vBool(has)}}
+	})}
+
 	// ---- WaitGroup ----
 	extModels["(*sync.WaitGroup).Add"] = &model{doc: "event wgadd(wg, n)", emits: true, fn: simple(func(r *FnRun, st *State, instr ssa.Instruction, args []*V) *V {
 		st.emit("wgadd", identityLeaves(args[0])[0], args[1].S)
